@@ -12,7 +12,7 @@ import (
 func init() {
 	register(&propDef{
 		ID:       "C14",
-		Explain:  "Decided (structural necessary conditions): Target.Reset clears timestamp and metadata and regenerates the metadata leaves before its loop, and the loop deletes (unconditionally, Tree.Delete) and announces every child root other than the metadata root, announcing exactly the root it deleted; Cache.Remove forgets the target and then announces the whole-target delete, both inside the cache write lock; per-target isolation: Target has no field through which another Target or the Cache is reachable, Cache.Add gives every target a fresh tree/metadata/latency object, Target methods store only through their receiver (or objects they created), and each Cache entry point that takes a target name performs exactly one lookup with that name and acts on its result only; a delivered whole-target delete ends a single-target stream cleanly (errC <- nil), and isTargetDelete is true exactly for one delete, empty origin, path [\"*\"] (16-row table); metadata.Clear visits all three registries and ResetEntry has an arm per kind. Also decided: Cache.Reset calls Target.Reset while holding Cache.mu (a concurrent Remove/Add cannot interleave with the reset's announcements); Metadata.Clear changes values only through ResetEntry, and ResetEntry applies each string entry's policy (DefaultValue => \"\", Delete => removed, Keep => untouched). Round-4 additions: the all-targets query runs every per-target Tree.Query under Cache.mu (a Remove cannot complete in the middle of the walk); a stream registers before it walks (C04.reg-before-walk, borrowed), so the announcements of a Reset/Remove reach it. Round-5 addition: generateMetaUpdates rewrites every metadata leaf whose stored value differs from the current value, for each of the three registries, whether or not the leaf already exists (a Reset's 'not synced / not connected' reaches queries and the feed).",
+		Explain:  "Decided (structural necessary conditions): Target.Reset clears timestamp and metadata and regenerates the metadata leaves before its loop, and the loop deletes (unconditionally, Tree.Delete) and announces every child root other than the metadata root, announcing exactly the root it deleted; Cache.Remove forgets the target and then announces the whole-target delete, both inside the cache write lock; per-target isolation: Target has no field through which another Target or the Cache is reachable, Cache.Add gives every target a fresh tree/metadata/latency object, Target methods store only through their receiver (or objects they created), and each Cache entry point that takes a target name performs exactly one lookup with that name and acts on its result only; a delivered whole-target delete ends a single-target stream cleanly (errC <- nil), and isTargetDelete is true exactly for one delete, empty origin, path [\"*\"] (16-row table); metadata.Clear visits all three registries and ResetEntry has an arm per kind. Also decided: Cache.Reset calls Target.Reset while holding Cache.mu (a concurrent Remove/Add cannot interleave with the reset's announcements); Metadata.Clear changes values only through ResetEntry, and ResetEntry applies each string entry's policy (DefaultValue => \"\", Delete => removed, Keep => untouched). Round-4 additions: the all-targets query runs every per-target Tree.Query under Cache.mu (a Remove cannot complete in the middle of the walk); a stream registers before it walks (C04.reg-before-walk, borrowed), so the announcements of a Reset/Remove reach it. Round-5 addition: generateMetaUpdates rewrites every metadata leaf whose stored value differs from the current value, for each of the three registries, whether or not the leaf already exists (a Reset's 'not synced / not connected' reaches queries and the feed). Round-6 addition: the registry map is the only field of Cache through whose type a Target can be reached (no memo or second index that Remove would have to invalidate as well).",
 		NotCover: "that Delete([root]) removes all leaves below the root (ctree semantics, C09), the metadata values after reset beyond Clear's structure, the package-level metadata registries shared by design",
 		Run:      runC14,
 	})
@@ -146,59 +146,83 @@ func runC14(c *Ctx) {
 				continue
 			}
 			c.Analysed(fnName(f))
-			lookups := 0
-			okKey := true
-			var results []ssa.Value
-			instrs(f, func(in ssa.Instruction) {
-				var key ssa.Value
-				switch x := in.(type) {
-				case *ssa.Lookup:
-					if isNamed(deref(x.Type()), "cache", "Target") || strings.Contains(x.Type().String(), "cache.Target") {
-						key = x.Index
-						results = append(results, x)
-					}
-				case *ssa.Call:
-					if calleeName(&x.Call) == "(*cache.Cache).GetTarget" {
-						key = x.Call.Args[1]
-						results = append(results, x)
-					} else if b, ok := x.Call.Value.(*ssa.Builtin); ok && b.Name() == "delete" {
-						key = x.Call.Args[1]
-					}
+			// on paths (helpers of the package and function values handed to them entered): at most one lookup of a
+			// target, keyed by the argument; every Target method runs on its result
+			isLookup := func(ev *Ev) bool {
+				if ev.Label == "call:(*cache.Cache).GetTarget" || (ev.Label == "builtin:delete" && len(ev.Args) >= 1 && strings.Contains(ev.Args[0].V.Type().String(), "cache.Target")) {
+					return true
 				}
-				if key == nil {
-					return
+				return strings.HasPrefix(ev.Label, "lookup:") && len(ev.Args) >= 1 && strings.Contains(ev.Args[0].V.Type().String(), "cache.Target")
+			}
+			isTargetMethod := func(ev *Ev) bool {
+				ci, ok := ev.In.(ssa.CallInstruction)
+				if !ok || !strings.HasPrefix(ev.Label, "call:") {
+					return false
 				}
-				lookups++
-				switch e.key {
-				case "param":
-					if key != ssa.Value(param(f, 1)) {
-						okKey = false
-					}
-				case "prefix-target":
-					if !isCallNamed(key, "(*proto/gnmi.Path).GetTarget") {
-						okKey = false
-					}
-				}
-			})
-			// method calls on Targets use only the lookup result
-			okRecv := true
-			for _, ci := range callsIn(f) {
 				cal := staticCallee(ci.Common())
-				if cal == nil || cal.Signature.Recv() == nil || !isNamed(cal.Signature.Recv().Type(), "cache", "Target") {
-					continue
-				}
-				recv := ci.Common().Args[0]
-				found := false
-				for _, r := range results {
-					if recv == r {
-						found = true
+				return cal != nil && cal.Signature.Recv() != nil && isNamed(cal.Signature.Recv().Type(), "cache", "Target")
+			}
+			gt := P.Method("cache", "Cache", "GetTarget")
+			pe := &PPA{MaxVisits: 2, TraceLookups: true,
+				Inline: func(fr *Frame, call ssa.CallInstruction, callee *ssa.Function) bool {
+					if callee == gt || callee.Pkg == nil || callee.Pkg != f.Pkg || callee == f {
+						return callee.Synthetic != "" && callee != gt
 					}
-					if ex, ok := recv.(*ssa.Extract); ok && ex.Tuple == r {
-						found = true
+					if callee.Signature.Recv() != nil && isNamed(callee.Signature.Recv().Type(), "cache", "Target") {
+						return false
+					}
+					return !isExportedFn(callee) || callee.Parent() != nil
+				},
+				Watch: func(ev *Ev) bool { return isLookup(ev) || isTargetMethod(ev) }}
+			pe.Run(f)
+			c.Paths += len(pe.Paths)
+			lookups, okKey, okRecv := 0, true, true
+			for pi := range pe.Paths {
+				p := &pe.Paths[pi]
+				var results []RV
+				nl := 0
+				for ti := range p.Trace {
+					ev := &p.Trace[ti]
+					if isLookup(ev) {
+						nl++
+						keyIdx := 1
+						if len(ev.Args) <= keyIdx {
+							okKey = false
+							continue
+						}
+						key := frameResolve(ev.Args[keyIdx])
+						switch e.key {
+						case "param":
+							if key.V != ssa.Value(param(f, 1)) {
+								okKey = false
+							}
+						case "prefix-target":
+							if !isCallNamed(key.V, "(*proto/gnmi.Path).GetTarget") {
+								okKey = false
+							}
+						}
+						if v, ok := ev.In.(ssa.Value); ok {
+							results = append(results, RV{ev.F, v})
+						}
+						continue
+					}
+					// a Target method: on the result of the lookup
+					recv := frameResolve(ev.Args[0])
+					found := false
+					for _, r := range results {
+						if recv.V == r.V {
+							found = true
+						}
+						if ex, ok := recv.V.(*ssa.Extract); ok && ex.Tuple == r.V {
+							found = true
+						}
+					}
+					if !found {
+						okRecv = false
 					}
 				}
-				if !found {
-					okRecv = false
+				if nl > lookups {
+					lookups = nl
 				}
 			}
 			c.Check(lookups == 1 && okKey && okRecv, "C14.isolation", fnName(f), "one target lookup keyed by the argument; methods only on its result", P.Pos(f.Pos()), fmt.Sprintf("lookups=%d key-is-argument=%v methods-on-result-only=%v", lookups, okKey, okRecv))
